@@ -40,7 +40,7 @@ CHECKS = {
    text="For every accepted grammar of the enumerated families the canonical print and every single re-layout (each separator at each token gap, ::=, final ;, redundant parentheses around each node outside a word, every permutation of the definitions) are compiled in-process and compared byte for byte (plus verdict and warning counts); corpus texts go through the real binary in their original layout, the canonical re-print and two re-layouts.",
    note="trusted: harness printer (validated by C05); target shell rotates over the variants, the canonical print is compiled for all four", ref="4/C14"),
  "C15": dict(cat="exploration", tech="exhaustive enumeration of reference structures (definition statuses x reference subsets) against a reachability oracle, at library level and on the real binary's stderr/stdout/exit status",
-   text="All 6^3 status vectors of three definable names x all subsets of call-variant references x all acyclic body reference subsets x 4 targets: the three warning sets must equal the reachability oracle, every warning span must cover the offending name token, and deleting everything warned about must not change the script bytes or the verdict.",
+   text="All 7^3 status vectors of three definable names x all subsets of call-variant references x all acyclic body reference subsets x 4 targets: the three warning sets must equal the reachability oracle, every warning span must cover the offending name token, and deleting everything warned about must not change the script bytes or the verdict.",
    note="trusted: reachability oracle r8::warnings; Level L observes ValidGrammar's maps after main.rs's `_` exemption; Level B parses the binary's warning lines", ref="4/C15"),
  "C16": dict(cat="exploration", tech="strict DOT parser (graphviz lexer rules) + structural comparison of the dumps with the compiled automaton / regex positions; binary file binding",
    text="For every grammar of the enumerated families and a menu of hot strings in every textual role, the --dfa dump of each shell and the --regex dump must parse as DOT and show exactly the compiled automaton: one correctly named, labelled and shaped node per state, one labelled edge per transition, one cluster per within-word automaton numbered as in the scripts with entry/exit edges, every regex position as a labelled node; the files written by the real binary equal the library's bytes.",
